@@ -825,4 +825,66 @@ theorem handleFile_ok_tmp {fs fs1 : FS} {a : Args} {n d t : Path} (h : handleFil
               rw [← h1, ← h3]
               exact openWrite_not_real f2 _
 
+/-! ### a refusal touches nothing -/
+
+theorem removeExisting_error {fs fs' : FS} {p : Path} {e : Err} (h : removeExisting fs p = (fs', .error e)) :
+    fs' = fs := by
+  rcases removeExisting_spec fs p with ⟨_, e1⟩ | ⟨_, _, e1⟩ | ⟨_, _, e1⟩ <;> rw [e1] at h
+  · simp at h
+  · exact (congrArg Prod.fst h).symm
+  · simp at h
+
+theorem confirmOverwrite_error {fs fs' : FS} {a : Args} {d : Path} {ow : Bool} {e : Err}
+    (h : confirmOverwrite fs a d ow = (fs', .error e)) : fs' = fs := by
+  unfold confirmOverwrite at h
+  split at h
+  · split at h
+    · split at h
+      · cases hr : removeExisting fs d with
+        | mk f1 r1 =>
+          rw [hr] at h
+          cases r1 with
+          | error e1 =>
+            simp only at h
+            have : fs' = f1 := (congrArg Prod.fst h).symm
+            rw [this]; exact removeExisting_error hr
+          | ok u => simp at h
+      · simp at h
+    · exact (congrArg Prod.fst h).symm
+  · simp at h
+
+theorem confirmOverwrite_noaccept {fs : FS} {a : Args} (d : Path) (ow : Bool) (hacc : a.acceptFile = false) :
+    (confirmOverwrite fs a d ow).1 = fs := by
+  unfold confirmOverwrite
+  split
+  · split
+    · simp [hacc]
+    · rfl
+  · rfl
+
+theorem decideDest_error {fs fs' : FS} {a : Args} {n : Path} {e : Err} (h : decideDest fs a n = (fs', .error e)) :
+    fs' = fs := by
+  obtain ⟨d, ow, hd⟩ := decideDest_eq fs a n
+  rw [hd] at h
+  exact confirmOverwrite_error h
+
+theorem decideDest_noaccept {fs : FS} {a : Args} (n : Path) (hacc : a.acceptFile = false) :
+    (decideDest fs a n).1 = fs := by
+  obtain ⟨d, ow, hd⟩ := decideDest_eq fs a n
+  rw [hd]
+  exact confirmOverwrite_noaccept d ow hacc
+
+theorem askPermission_error {fs fs' : FS} {a : Args} {d : Path} {e : Err} (h : askPermission fs a d = (fs', .error e)) :
+    fs' = fs ∧ a.acceptFile = false := by
+  unfold askPermission at h
+  split at h
+  · simp at h
+  · rename_i hacc
+    have hacc' : a.acceptFile = false := by simpa using hacc
+    split at h
+    · split at h
+      · exact ⟨removeExisting_error h, hacc'⟩
+      · simp at h
+    · exact ⟨(congrArg Prod.fst h).symm, hacc'⟩
+
 end WV.C05
